@@ -310,6 +310,15 @@ Section Composed.
       + destruct Hc as (_ & b & Hb & Hib). rewrite Hb in Hio. inversion Hio. subst. exists (ib (s_idler s)). split; reflexivity.
       + destruct Hc as (_ & Hc). rewrite Hc in Hio. discriminate.
   Qed.
+  (* C16: for a COLLINEAR finished signal the automatic crystal angle IS the explicit optimum call on the finished setup *)
+  Theorem auto_theta_final_composed U minpos rj c s nf :
+    try_as_spdc_steps R_ops U KM minpos rj c = Ok (s, nf) -> cc_theta_deg (c_crystal c) = Auto -> collinear (s_signal s) ->
+    optimum_theta R_ops KM (s_crystal s) (s_signal s) (s_pump s) = Ok (cs_theta (s_crystal s)).
+  Proof.
+    intros H Ha Hc. apply (auto_theta_is_final_optimum R R_ops U KM minpos rj c s nf H Ha).
+    intros th. cbn [o_snell_ext oracles_of_model]. unfold snell_ext_defined, snell_arg.
+    rewrite (collinear_sin _ Hc), !Rmult_0_r. reflexivity.
+  Qed.
 End Composed.
 
 (* non-vacuity of the remaining hypothesis *)
